@@ -45,7 +45,7 @@ unsafe impl std::alloc::GlobalAlloc for YieldAlloc {
 static GLOBAL: YieldAlloc = YieldAlloc;
 
 fn scenarios() -> Vec<&'static dyn Scenario> {
-    vec![&c20::C20Lib, &c20x::C20Fmt { c10: false }, &c20x::C20Cli, &c20x::C20Macro, &c11::C11Threads { xmod: false, fine: false, fmt: false }, &c11::C11Threads { xmod: true, fine: false, fmt: false }, &c11::C11Threads { xmod: false, fine: true, fmt: false }, &c11::C11Threads { xmod: false, fine: false, fmt: true }, &c08::C08Images, &c17::C17Corrupt, &c12::C12Deliveries, &c12::C12Subsets, &c12::C12XmodEnumeral, &c12::C12XmodName, &c10::C10Faults, &c10::C10XmodName, &c20x::C20Fmt { c10: true }]
+    vec![&c20::C20Lib, &c20x::C20Fmt { c10: false }, &c20x::C20Cli, &c20x::C20Macro, &c11::C11Threads { xmod: false, fine: false, fmt: false }, &c11::C11Threads { xmod: true, fine: false, fmt: false }, &c11::C11Threads { xmod: false, fine: true, fmt: false }, &c11::C11Threads { xmod: false, fine: false, fmt: true }, &c08::C08Images, &c17::C17Corrupt, &c12::C12Deliveries, &c12::C12Subsets, &c12::C12XmodEnumeral, &c12::C12XmodName, &c12::C12TagKeywords, &c10::C10Faults, &c10::C10XmodName, &c20x::C20Fmt { c10: true }]
 }
 
 fn meta(prop: &str) -> (&'static str, Vec<&'static str>, serde_json::Value) {
@@ -187,6 +187,12 @@ fn main() {
             let plan = scn.plan(seed, idx, Tier::Quick, &env);
             let rr = core::run_plan(*scn, &plan, &env);
             println!("{}", serde_json::to_string(&rr.outcome).unwrap());
+        }
+        "set-text" => {
+            // set-text <replay file>: print the generated module set of a plan (debugging aid)
+            let doc: serde_json::Value = serde_json::from_slice(&std::fs::read(&args[2]).unwrap()).unwrap();
+            let set: gen::ModuleSet = serde_json::from_value(doc["plan"]["set"].clone()).expect("plan has no `set`");
+            println!("{}", set.concat());
         }
         "c17-show" => c17::show(&args[2]),
         "c17-double" => c17::show_double(args[2].parse().unwrap()),
